@@ -351,6 +351,16 @@ def run(chk):
             g, A, B = rng.choice([0, 1, 2, 3, 5]), gint(rng, (dl, dl), -1, 1), gint(rng, (dr, dr), -1, 1)
             chain.add_nn_dissipation(0, A, B, gamma=float(g))
             jterms.append((g, np.kron(A, B)))
+        # single-site terms of both sites (complex Gaussian-integer Lindblad operators: A^dagger A is not symmetric in general)
+        site_terms = it % 2 == 1
+        if site_terms:
+            for site_, dd_ in ((0, dl), (1, dr)):
+                hs_ = herm_int(rng, dd_)
+                chain.add_site_hamiltonian(site_, hs_)
+                Hj = Hj + (np.kron(hs_, np.eye(dr)) if site_ == 0 else np.kron(np.eye(dl), hs_))
+                gs_, As_ = rng.choice([1, 2, 3]), gint(rng, (dd_, dd_), -1, 1)
+                chain.add_site_dissipation(site_, As_, gamma=float(gs_))
+                jterms.append((gs_, np.kron(As_, np.eye(dr)) if site_ == 0 else np.kron(np.eye(dl), As_)))
         L = np.array(chain.get_nn_full_liouvillians()[0])
         # the same generator handed over as matrices (add_nn_liouvillian / add_site_liouvillian add to what is stored)
         chain2 = oqupy.SystemChain([dl, dr])
@@ -361,7 +371,7 @@ def run(chk):
         chain2.add_site_liouvillian(0, sl)
         chain2.add_site_liouvillian(1, np.zeros((dr * dr, dr * dr)))
         L2 = np.array(chain2.get_nn_full_liouvillians()[0])
-        if not np.array_equal(L2, L + np.kron(sl, np.eye(dr * dr))):
+        if not site_terms and not np.array_equal(L2, L + np.kron(sl, np.eye(dr * dr))):
             chk.fail("liouvillian-add", "SystemChain.add_nn_liouvillian / add_site_liouvillian: the two-site generator is not the sum of what was added",
                      {"kind": "liouvillian", "api": "SystemChain.add_*_liouvillian", "d": [dl, dr]})
         # to the joint-space order (i_l i_r j_l j_r)
